@@ -205,6 +205,7 @@ fn run_op(container: &jubako::reader::Container, model: &Model, op: &Op, who: us
                 Ok(true) => Ok(()),
                 other => Err(format!("pack {pack} check: {:?}", other.map_err(|e| simcore::dump::err_class(&e)))),
             },
+            Err(e) => Err(format!("get_pack({pack}) failed: {}", simcore::dump::err_class(&e))),
             _ => Err(format!("get_pack({pack}) did not answer FOUND")),
         },
         Op::ContainerCheck => match container.check() {
@@ -425,6 +426,15 @@ impl TCheck for C07 {
             ("stream_short_read_pm", *rng.pick(&[0u64, 0, 250])),
             ("stream_short_read_seed", rng.next_u64() >> 1),
         ];
+        // one work in six reads from a disk with failing sectors: a read of the pack file fails
+        // with EIO now and then (1.5 % of the reads). An operation may then answer with an error;
+        // it may never deliver wrong bytes, panic, or leave anybody waiting
+        let read_faults = work % 6 == 4;
+        let mut knobs = knobs;
+        if read_faults {
+            knobs.push(("file_read_fail_pm", 15));
+            knobs.push(("env_fault_seed", rng.next_u64() >> 1));
+        }
         let readers = rng.range(2, 4) as usize;
         // contents several readers look at simultaneously
         let mut hot: Vec<usize> = (0..2).map(|_| rng.usize_below(image.model.contents.len())).collect();
@@ -466,7 +476,7 @@ impl TCheck for C07 {
                 );
             }
         }
-        let desc = json!({"image": gen::describe(&logical), "readers": readers, "big_compressed_cluster": big, "two_MiB_sized_compressed_clusters": mib_pair, "content_above_16_MiB": above_16mib,
+        let desc = json!({"failing_reads": read_faults, "image": gen::describe(&logical), "readers": readers, "big_compressed_cluster": big, "two_MiB_sized_compressed_clusters": mib_pair, "content_above_16_MiB": above_16mib,
                           "ops": ops.iter().map(|o| o.iter().map(|x| format!("{x:?}")).collect::<Vec<_>>()).collect::<Vec<_>>(),
                           "hot_contents": hot});
         let ops = Arc::new(ops);
@@ -479,7 +489,9 @@ impl TCheck for C07 {
                 let container = match jubako::reader::Container::new(&image2.entry) {
                     Ok(c) => Arc::new(c),
                     Err(e) => {
-                        rep.complaints.push(format!("Container::new failed: {}", simcore::dump::err_class(&e)));
+                        if !read_faults {
+                            rep.complaints.push(format!("Container::new failed: {}", simcore::dump::err_class(&e)));
+                        }
                         *slot.lock().unwrap() = rep;
                         return;
                     }
@@ -508,6 +520,15 @@ impl TCheck for C07 {
                     }
                 }
                 rep.complaints = complaints.lock().unwrap().clone();
+                if read_faults {
+                    // with failing reads an error answer is legitimate; wrong data never is
+                    let wrong_data = |m: &String| {
+                        ["differ", "instead of", "delivered", "no progress", "not found", "answered", "did not answer"].iter().any(|w| m.contains(w))
+                    };
+                    let n = rep.complaints.len();
+                    rep.complaints.retain(wrong_data);
+                    rep.notes.insert("operations_answered_with_an_error_under_read_faults".into(), (n - rep.complaints.len()) as u64);
+                }
                 rep.interleaving = order.lock().unwrap().clone();
                 *slot.lock().unwrap() = rep;
             }),
